@@ -568,6 +568,25 @@ func (g *gen) writeStatementIterate(b *buffer, n *a.Iterate, depth uint32) error
 		}
 	}
 	// TODO: look at n.HasContinue() and n.HasBreak().
+	iterateJT, breakLabel := "", ""
+	for o := n; o != nil; o = o.ElseIterate() {
+		if !o.HasBreak() && !o.HasContinue() {
+			continue
+		}
+		if iterateJT == "" {
+			jt, err := g.currFunk.jumpTarget(g.tm, n)
+			if err != nil {
+				return err
+			}
+			iterateJT = jt
+		}
+		if o.HasBreak() {
+			breakLabel = fmt.Sprintf("label__%s__break", iterateJT)
+		}
+	}
+	if g.currFunk.iterateJumps == nil {
+		g.currFunk.iterateJumps = map[a.Loop]iterateJump{}
+	}
 
 	round := uint32(0)
 	for ; n != nil; n = n.ElseIterate() {
@@ -584,7 +603,14 @@ func (g *gen) writeStatementIterate(b *buffer, n *a.Iterate, depth uint32) error
 			return err
 		}
 		for {
-			if err := g.writeIterateRound(b, assigns, n.Body(), round, depth, length, advance, unroll); err != nil {
+			g.currFunk.iterateJumps[n] = iterateJump{breakLabel: breakLabel}
+			if n.HasContinue() {
+				g.currFunk.iterateJumps[n] = iterateJump{
+					breakLabel:    breakLabel,
+					continueLabel: fmt.Sprintf("label__%s__continue_%d", iterateJT, round),
+				}
+			}
+			if err := g.writeIterateRound(b, n, assigns, n.Body(), round, depth, length, advance, unroll); err != nil {
 				return err
 			}
 			round++
@@ -601,6 +627,15 @@ func (g *gen) writeStatementIterate(b *buffer, n *a.Iterate, depth uint32) error
 	}
 
 	b.writes("}\n")
+	if breakLabel != "" {
+		// The label is outside of the block, so that (in C++) the jump does
+		// not cross the initialization of a later round's variables.
+		b.printf("%s:;\n", breakLabel)
+		for _, o := range assigns {
+			name := o.AsAssign().LHS().Ident().Str(g.tm)
+			b.printf("%s%s.len = 0;\n", vPrefix, name)
+		}
+	}
 	g.currFunk.activeLoops.Pop()
 	return nil
 }
@@ -610,7 +645,16 @@ func (g *gen) writeStatementJump(b *buffer, n *a.Jump, depth uint32) error {
 	if n.Keyword() == t.IDBreak {
 		keyword = "break"
 	}
-	if n.JumpTarget() == g.currFunk.activeLoops.Top() {
+	if ij, ok := g.currFunk.iterateJumps[n.JumpTarget()]; ok {
+		label := ij.continueLabel
+		if n.Keyword() == t.IDBreak {
+			label = ij.breakLabel
+		}
+		if label == "" {
+			return fmt.Errorf("internal error: no %s label for an iterate loop", keyword)
+		}
+		b.printf("goto %s;\n", label)
+	} else if n.JumpTarget() == g.currFunk.activeLoops.Top() {
 		b.printf("%s;\n", keyword)
 	} else if jt, err := g.currFunk.jumpTarget(g.tm, n.JumpTarget()); err != nil {
 		return err
@@ -754,7 +798,8 @@ func (g *gen) writeStatementWhile(b *buffer, n *a.While, depth uint32) error {
 	return nil
 }
 
-func (g *gen) writeIterateRound(b *buffer, assigns []*a.Node, body []*a.Node, round uint32, depth uint32, length int, advance int, unroll int) error {
+func (g *gen) writeIterateRound(b *buffer, n *a.Iterate, assigns []*a.Node, body []*a.Node, round uint32, depth uint32, length int, advance int, unroll int) error {
+	ij := g.currFunk.iterateJumps[n]
 	for _, o := range assigns {
 		name := o.AsAssign().LHS().Ident().Str(g.tm)
 		b.printf("%s%s.len = %d;\n", vPrefix, name, length)
@@ -778,10 +823,19 @@ func (g *gen) writeIterateRound(b *buffer, assigns []*a.Node, body []*a.Node, ro
 	}
 	b.printf("while (%s%s.ptr < %send%d_%s) {\n", vPrefix, name0, iPrefix, round, name0)
 	for i := 0; i < unroll; i++ {
+		if ij.continueLabel != "" {
+			g.currFunk.iterateJumps[n] = iterateJump{
+				breakLabel:    ij.breakLabel,
+				continueLabel: fmt.Sprintf("%s_%d", ij.continueLabel, i),
+			}
+		}
 		for _, o := range body {
 			if err := g.writeStatement(b, o, depth); err != nil {
 				return err
 			}
+		}
+		if ij.continueLabel != "" {
+			b.printf("%s_%d:;\n", ij.continueLabel, i)
 		}
 		for _, o := range assigns {
 			name := o.AsAssign().LHS().Ident().Str(g.tm)
